@@ -14,8 +14,8 @@ MANIFEST = dict(
           "on the real UnitRegistry / Unit / unyt_array code with every scale a fresh z3 real; after the history (hence after "
           "every prefix, the set of histories being prefix-closed) and, in a second family, after every single step, each "
           "probe string is resolved against the live registry and z3 decides whether its scale term and dimensions equal those "
-          "of a 15-line reference model and of a cold registry built from the model's contents; units made earlier must keep "
-          "their term. Histories are enumerated (discrete), scales and payloads are solved for."),
+          "of a 15-line reference model (itself checked, state by state, against a cold registry built by the real code from the "
+          "model's contents); units made earlier must keep their term. Histories are enumerated (discrete), scales and payloads are solved for."),
     design="DESIGN.md section 4 C12",
     technique="explicit-state bounded model checking over operation histories, symbolic (z3 real) data, reference-model refinement check per state; counterexample replay on plain unyt")
 EXPLANATION = (
@@ -25,8 +25,8 @@ EXPLANATION = (
     "one history, so all memo layers are live inside a history. Specification = harness.registry_common.Model "
     "(symbol -> scale term, dims, offset, prefixable) and its evaluator for the probe strings "
     "{xfoo, kxfoo, mxfoo, xbar, xfoo*xbar, kxfoo**2/xbar, xfoo/xfoo}. Obligations per observed state: base_value term == "
-    "model term (1e-6 band) and dimensions equal, or 'unknown symbol' exactly when the model says so; same against a cold "
-    "registry holding the model's rows; outcome (exception class) of every operation as documented; units created earlier "
+    "model term (1e-6 band) and dimensions equal, or 'unknown symbol' exactly when the model says so; the model's answer == the real code's answer on a cold "
+    "registry holding the model's rows (validation of the specification); outcome (exception class) of every operation as documented; units created earlier "
     "keep the term they had. z3 decides each obligation for all positive scales / all payloads at once; a stale cache "
     "shows as a term that still mentions an old symbol."
 )
@@ -221,7 +221,9 @@ class World:
         elif op == "arith":
             x, y = ctx.real(f"x{i}"), ctx.real(f"y{i}")
             exp = model.eval(ARITH.net)
-            circ = self.log.circumstances(ARITH)
+            # circumstances of the string 'xfoo' (xbar is never re-added, and modify drops the exact key): the cause of a stale
+            # operand is named by the last edit of xfoo, not by a later edit of xbar
+            circ = self.log.circumstances(PK["atom"])
             res = call(lambda: ctx.quantity(x, FOO, reg) * ctx.quantity(y, BAR, reg))
             self.log.request(FOO, PK["atom"].text)
             self.log.request(BAR, PK["atom2"].text)
